@@ -315,15 +315,22 @@ def evalBlock (fields : Array String) : Stats := Id.run do
   let w := tyWidth ty; let sg := tySigned ty
   let wm : UInt64 := if w == 64 then 0xFFFFFFFFFFFFFFFF else ((1 : UInt64) <<< w.toUInt64) - 1
   let mut h := FNV0
+  -- counters are kept in locals and folded into the statistics once per block (the verdict record is only
+  -- materialised for a violated specification)
   let mut st : Stats := { blocks := 1 }
+  let mut nOk : Nat := 0
+  let mut nNa : Nat := 0
+  let mut nNt : Nat := 0
   for i in [lo:lo+count] do
     if op < 25 || op == 46 then
       let a := i.toUInt64 &&& wm
       let r := modelG op w sg a p1 p2
       h := (h ^^^ r) * FNVP
       let v := specG op w sg a p1 p2 r
-      st := st.note op v (fun _ => s!"{opS} {ty} {a} {p1} {p2} 0 -> {r}")
-      if nontriv a r then st := { st with nontrivial := st.nontrivial + 1 }
+      if v.code == 0 then nOk := nOk + 1
+      else if v.code == 1 then nNa := nNa + 1
+      else st := st.note op v (fun _ => s!"{opS} {ty} {a} {p1} {p2} 0 -> {r}")
+      if nontriv a r then nNt := nNt + 1
     else
       let (a, b, c, d) := unpack op ((p1 <<< 16) ||| i.toUInt64)
       let r := modelF op a b c d
@@ -331,8 +338,13 @@ def evalBlock (fields : Array String) : Stats := Id.run do
       let r2 := if nResults op == 2 then modelF2 op a else 0
       if nResults op == 2 then h := (h ^^^ r2) * FNVP
       let v := specF op a b c d r r2
-      st := st.note op v (fun _ => s!"{opS} {ty} {a} {b} {c} {d} -> {r} {r2}")
-      if nontriv a r then st := { st with nontrivial := st.nontrivial + 1 }
+      if v.code == 0 then nOk := nOk + 1
+      else if v.code == 1 then nNa := nNa + 1
+      else st := st.note op v (fun _ => s!"{opS} {ty} {a} {b} {c} {d} -> {r} {r2}")
+      if nontriv a r then nNt := nNt + 1
+  st := { st with evals := st.evals + nOk + nNa, checked := st.checked + nOk, notApplicable := st.notApplicable + nNa,
+                  nontrivial := st.nontrivial + nNt,
+                  perOp := st.perOp.modify op (fun e => (e.1 + nOk + nNa, e.2.1 + nOk, e.2.2 + nNa)) }
   if h != glmHash then
     st := { st with mismatches := st.mismatches + 1,
                     msgs := st.msgs.push s!"MISMATCH B {opS} {ty} {p1} {p2} {lo} {count} model={h} glm={glmHash}" }
